@@ -229,8 +229,14 @@ def _check_scale(ctx: Ctx, ser_terms: Dict[str, T.Term]) -> None:
                 re_t, im_t = T.from_ast(n.args[0], env), T.from_ast(n.args[1], env)
             except T.Unknown:
                 continue
-            cj = T.coefficient_of(re_t, lambda a: a == ('sym', 'jj'))
-            ci = T.coefficient_of(im_t, lambda a: a == ('sym', 'ii'))
+            # the two grid coordinates: whichever loop variable each part depends on (two different ones)
+            loop_vars = {t.id for l_ in walk_no_nested(cc.node) if isinstance(l_, ast.For) for t in ast.walk(l_.target) if isinstance(t, ast.Name)}
+            rv_ = {a[1] for a in T.atoms_of(re_t) if a[0] == 'sym' and a[1] in loop_vars}
+            iv_ = {a[1] for a in T.atoms_of(im_t) if a[0] == 'sym' and a[1] in loop_vars}
+            if len(rv_) != 1 or len(iv_) != 1 or rv_ == iv_:
+                continue
+            cj = T.coefficient_of(re_t, lambda a: a == ('sym', next(iter(rv_))))
+            ci = T.coefficient_of(im_t, lambda a: a == ('sym', next(iter(iv_))))
             if cj.is_const() and ci.is_const() and abs(cj.const_value()) == abs(ci.const_value()) != 0:
                 h2 = (cj.const_value() / 2) ** 2
     if h2 is None:
